@@ -1,19 +1,22 @@
 //! threadsim: the real nREPL server threads under the seeded shuttle scheduler.
 //!
 //! Compiled as a child module of /repo/src/nrepl.rs (hook H4), so `super::`
-//! reaches `Connection`, `handle_message`, `sigint_watchdog`, `read_message`,
-//! `write_message` ...  Through hook H4 the server's `thread` and `mpsc` are
-//! the shim types of /verif/sim/src/shim.rs, so every spawn, send, receive,
-//! join, sleep and timer expiry is a decision of the seeded scheduler, and hook
-//! H2 makes every evaluation step (where the evaluator reads the shared
-//! interrupt flag) a scheduling point.
+//! reaches `serve_connection`, `Connection`, `read_message`, `write_message` ...
+//! Through hooks H4/H5 the server's `thread`, `mpsc` and `TcpStream` are the
+//! shim types of /verif/sim/src/shim.rs, so every spawn, send, receive, join,
+//! sleep, timer expiry and blocking socket read is a decision of the seeded
+//! scheduler, and hook H2 makes every evaluation step (where the evaluator
+//! reads the shared interrupt flag) a scheduling point.
 //!
-//! Real code: Connection, handle_message, dispatch_to_session, session_worker,
-//! handle_eval / eval_code_in_namespace, spawn_output_flusher,
-//! flush_output_buffer, sigint_watchdog, read_message, write_message, the
-//! whole evaluator.  Re-enacted here (stubs): the accept loop, the 15-line
-//! read/dispatch/shutdown loop of serve_connection and the 3-line loop of
-//! writer_thread, because their signatures name TcpStream.
+//! Real code: serve_connection (read/dispatch loop, shutdown sequence),
+//! writer_thread, Connection, handle_message, dispatch_to_session,
+//! session_worker, handle_eval / eval_code_in_namespace, spawn_output_flusher,
+//! flush_output_buffer, sigint_watchdog, read_message, write_message, the whole
+//! evaluator.  One or two connections are served concurrently, each driven by
+//! a simulated client thread.  Stubs: the accept loop of run_nrepl (it spawns
+//! with a fully qualified std::thread; the scenario spawns serve_connection
+//! the same way), the socket (an in-memory endpoint with injected EINTR,
+//! short reads/writes, chunked delivery, EOF mid-message and EPIPE), timers.
 //!
 //! Generic executor: one scenario (JSON) per stdin line, one result per line.
 
@@ -29,6 +32,7 @@ static USE_SWITCH: AtomicBool = AtomicBool::new(false);
 static STEP_BUDGET: AtomicUsize = AtomicUsize::new(100_000);
 static CODEC_INTERRUPTED: AtomicU64 = AtomicU64::new(0);
 static CODEC_SHORT_WRITES: AtomicU64 = AtomicU64::new(0);
+static CODEC_SHORT_READS: AtomicU64 = AtomicU64::new(0);
 
 fn log_event(mut v: serde_json::Value) {
     let n = EVENT_NO.fetch_add(1, Ordering::SeqCst) + 1;
@@ -88,226 +92,356 @@ pub(crate) fn on_watchdog_store(flag: &Arc<AtomicBool>) {
 }
 
 // ---------------------------------------------------------------------
-// fault-injecting transport
+// probes of hook H5 (serve_connection)
 // ---------------------------------------------------------------------
 
-/// The client->server byte stream.  `read_message` reads one byte at a time;
-/// each read may first fail with `Interrupted` (decided by shuttle::rand, so
-/// part of the replayable schedule), and the stream may end in the middle of a
-/// message (client crash).
-struct FaultyReader {
-    data: std::collections::VecDeque<u8>,
-    interrupted_permille: u32,
+fn conn_of_thread() -> i64 {
+    // serve_connection threads are named "nrepl-client-<c>" by the scenario
+    thread_name()
+        .strip_prefix("nrepl-client-")
+        .and_then(|s| s.parse::<i64>().ok())
+        .unwrap_or(-1)
 }
 
-impl Read for FaultyReader {
-    fn read(&mut self, buf: &mut [u8]) -> io::Result<usize> {
-        use shuttle::rand::Rng;
-        if self.interrupted_permille > 0
-            && shuttle::rand::thread_rng().gen_range(0u32..1000) < self.interrupted_permille
-        {
-            CODEC_INTERRUPTED.fetch_add(1, Ordering::Relaxed);
-            return Err(io::Error::new(io::ErrorKind::Interrupted, "simulated EINTR"));
-        }
-        if buf.is_empty() {
-            return Ok(0);
-        }
-        match self.data.pop_front() {
-            Some(b) => {
-                buf[0] = b;
-                Ok(1)
-            }
-            None => Ok(0),
-        }
+fn log_registry(conn: &Connection, c: i64) {
+    let mut ids: Vec<&String> = conn.sessions.keys().collect();
+    ids.sort();
+    for id in ids {
+        let st = &conn.sessions[id];
+        log_event(serde_json::json!({
+            "k": "SESSION", "conn": c, "session": id, "ptr": format!("{:p}", Arc::as_ptr(&st.interrupted)),
+        }));
     }
 }
 
-/// The server->client byte stream: short writes and `Interrupted`.
-struct FaultyWriter {
-    out: Vec<u8>,
-    short_permille: u32,
-    interrupted_permille: u32,
+/// In serve_connection, immediately before `handle_message(&mut conn, &request)`.
+/// Records the delivered request and - for `interrupt` / `close` of a live
+/// session - the flag write handle_message is about to make (no scheduling
+/// point separates this record from that store).
+pub(crate) fn probe_request(conn: &Connection, request: &HashMap<Vec<u8>, Value>) {
+    if crate::verif_sim::MODE.load(Ordering::Relaxed) != crate::verif_sim::MODE_SHUTTLE {
+        return;
+    }
+    let c = conn_of_thread();
+    log_registry(conn, c);
+    log_event(serde_json::json!({
+        "k": "REQ", "conn": c, "msg": bencode_to_json(&Value::Dict(request.clone())),
+    }));
+    let opname = dict_get(request, "op").and_then(as_str).unwrap_or("");
+    if opname == "interrupt" || opname == "close" {
+        if let Some(s) = dict_get(request, "session").and_then(as_str) {
+            if let Some(st) = conn.sessions.get(s) {
+                log_event(serde_json::json!({
+                    "k": "I", "src": opname, "conn": c, "session": s,
+                    "ptr": format!("{:p}", Arc::as_ptr(&st.interrupted)),
+                }));
+            }
+        }
+    }
 }
 
-impl std::io::Write for FaultyWriter {
-    fn write(&mut self, buf: &[u8]) -> io::Result<usize> {
-        use shuttle::rand::Rng;
-        let mut rng = shuttle::rand::thread_rng();
-        if self.interrupted_permille > 0 && rng.gen_range(0u32..1000) < self.interrupted_permille {
-            CODEC_INTERRUPTED.fetch_add(1, Ordering::Relaxed);
-            return Err(io::Error::new(io::ErrorKind::Interrupted, "simulated EINTR"));
-        }
-        let mut n = buf.len();
-        if n > 1 && self.short_permille > 0 && rng.gen_range(0u32..1000) < self.short_permille {
-            n = rng.gen_range(1..n);
-            CODEC_SHORT_WRITES.fetch_add(1, Ordering::Relaxed);
-        }
-        self.out.extend_from_slice(&buf[..n]);
-        Ok(n)
+/// In serve_connection, immediately before the shutdown sequence stores `true`
+/// into every session's flag and drops the connection.
+pub(crate) fn probe_shutdown(conn: &Connection) {
+    if crate::verif_sim::MODE.load(Ordering::Relaxed) != crate::verif_sim::MODE_SHUTTLE {
+        return;
     }
-    fn flush(&mut self) -> io::Result<()> {
-        Ok(())
-    }
-}
-
-// ---------------------------------------------------------------------
-// the scenario
-// ---------------------------------------------------------------------
-
-fn scenario(sc: &serde_json::Value) {
-    let codec = &sc["codec"];
-    let rd_int = codec["read_interrupted_permille"].as_u64().unwrap_or(0) as u32;
-    let wr_int = codec["write_interrupted_permille"].as_u64().unwrap_or(0) as u32;
-    let wr_short = codec["write_short_permille"].as_u64().unwrap_or(0) as u32;
-    let eof_mid = codec["eof_mid_message"].as_bool().unwrap_or(false);
-    let drop_rx_after = sc["drop_receiver_after"].as_u64();
-    let want_watchdog = sc["watchdog"].as_bool().unwrap_or(false);
-
-    // --- what serve_connection sets up ---
-    let (response_tx, response_rx) = mpsc::channel::<Value>();
-
-    // writer thread (re-enactment of writer_thread's loop over the channel)
-    let writer_handle = thread::Builder::new()
-        .name("nrepl-writer".to_owned())
-        .spawn(move || {
-            let mut w = FaultyWriter {
-                out: vec![],
-                short_permille: wr_short,
-                interrupted_permille: wr_int,
-            };
-            let mut decoded_upto = 0usize;
-            let mut n_msgs = 0u64;
-            while let Ok(mut value) = response_rx.recv() {
-                // `eval-msec` is the one field that reads the real clock; its digits
-                // would change the byte count and with it the number of codec draws.
-                if let Value::Dict(d) = &mut value {
-                    if let Some(v) = d.get_mut(b"eval-msec".as_slice()) {
-                        *v = Value::Int(0);
-                    }
-                }
-                if let Err(e) = write_message(&mut w, &value) {
-                    log_event(serde_json::json!({"k": "WRITE-ERROR", "err": e.to_string()}));
-                    return;
-                }
-                // the client decodes whatever complete messages have arrived
-                loop {
-                    let mut cur = std::io::Cursor::new(&w.out[decoded_upto..]);
-                    match read_message(&mut cur) {
-                        Ok(Some(v)) => {
-                            decoded_upto += cur.position() as usize;
-                            log_event(serde_json::json!({"k": "WIRE", "msg": bencode_to_json(&v)}));
-                        }
-                        _ => break,
-                    }
-                }
-                n_msgs += 1;
-                if let Some(lim) = drop_rx_after {
-                    if n_msgs >= lim {
-                        // the writer dies (socket error): the receiver is dropped
-                        log_event(serde_json::json!({"k": "WRITER-DIED"}));
-                        return;
-                    }
-                }
-            }
-            if decoded_upto != w.out.len() {
-                log_event(serde_json::json!({"k": "WIRE-TRAILING-BYTES", "n": w.out.len() - decoded_upto}));
-            }
-        })
-        .expect("spawn writer");
-
-    let mut conn = Connection::new(response_tx);
-
-    let global_interrupted = Arc::new(AtomicBool::new(false));
-    if want_watchdog {
-        let watchdog_flags = Arc::downgrade(&conn.interrupt_flags);
-        let g = Arc::clone(&global_interrupted);
-        thread::Builder::new()
-            .name("nrepl-sigint-watchdog".to_owned())
-            .spawn(move || sigint_watchdog(g, watchdog_flags))
-            .expect("spawn watchdog");
-    }
-
-    // --- the read/dispatch loop of serve_connection, fed by the simulated client ---
-    let mut reader = FaultyReader {
-        data: Default::default(),
-        interrupted_permille: rd_int,
-    };
-    let empty = vec![];
-    let ops = sc["ops"].as_array().unwrap_or(&empty);
-    let n_ops = ops.len();
-    'ops: for (oi, op) in ops.iter().enumerate() {
-        for _ in 0..op["yields"].as_u64().unwrap_or(0) {
-            sched_point();
-        }
-        match op["op"].as_str().unwrap_or("") {
-            "msg" => {
-                let Value::Dict(d) = json_to_bencode(op["fields"].clone()) else {
-                    continue;
-                };
-                let mut bytes: Vec<u8> = vec![];
-                write_message(&mut bytes, &Value::Dict(d)).expect("encode request");
-                if eof_mid && oi + 1 == n_ops && bytes.len() > 2 {
-                    // client crash in the middle of its last message
-                    bytes.truncate(bytes.len() / 2);
-                }
-                reader.data.extend(bytes);
-                let request = match read_message(&mut reader) {
-                    Ok(Some(Value::Dict(d))) => d,
-                    Ok(Some(_)) => continue,
-                    Ok(None) => break 'ops,
-                    Err(e) => {
-                        log_event(serde_json::json!({"k": "READ-ERROR", "err": e.to_string()}));
-                        break 'ops;
-                    }
-                };
-                // (only a request that arrived completely counts as delivered)
-                log_event(serde_json::json!({"k": "REQ", "op_index": oi, "fields": op["fields"].clone()}));
-                // Flag-write events of calls the simulator itself makes are logged
-                // here: no scheduling point separates the log from the store.
-                let opname = dict_get(&request, "op").and_then(as_str).unwrap_or("");
-                if opname == "interrupt" || opname == "close" {
-                    if let Some(s) = dict_get(&request, "session").and_then(as_str) {
-                        if let Some(st) = conn.sessions.get(s) {
-                            log_event(serde_json::json!({
-                                "k": "I", "src": opname, "session": s,
-                                "ptr": format!("{:p}", Arc::as_ptr(&st.interrupted)),
-                            }));
-                        }
-                    }
-                }
-                handle_message(&mut conn, &request);
-                // registry: session id -> flag address
-                for (id, st) in conn.sessions.iter() {
-                    log_event(serde_json::json!({
-                        "k": "SESSION", "session": id, "ptr": format!("{:p}", Arc::as_ptr(&st.interrupted)),
-                    }));
-                }
-            }
-            "sigint" => {
-                log_event(serde_json::json!({"k": "SIGINT"}));
-                global_interrupted.store(true, Ordering::SeqCst);
-            }
-            "yield" => {}
-            "disconnect" => break 'ops,
-            _ => {}
-        }
-    }
-
-    // --- the shutdown sequence of serve_connection ---
+    let c = conn_of_thread();
+    log_registry(conn, c);
     let mut ids: Vec<&String> = conn.sessions.keys().collect();
     ids.sort();
     for id in ids {
         let s = &conn.sessions[id];
         log_event(serde_json::json!({
-            "k": "I", "src": "disconnect", "session": id,
+            "k": "I", "src": "disconnect", "conn": c, "session": id,
             "ptr": format!("{:p}", Arc::as_ptr(&s.interrupted)),
         }));
-        s.interrupted.store(true, Ordering::SeqCst);
     }
-    log_event(serde_json::json!({"k": "CONN-DROPPED"}));
-    drop(conn);
-    let _ = writer_handle.join();
-    log_event(serde_json::json!({"k": "WRITER-JOINED"}));
+    log_event(serde_json::json!({"k": "CONN-SHUTDOWN", "conn": c}));
+}
+
+// ---------------------------------------------------------------------
+// the simulated socket: one endpoint per connection (server side)
+// ---------------------------------------------------------------------
+
+struct ReadSide {
+    rx: mpsc::Receiver<Vec<u8>>,
+    buf: std::collections::VecDeque<u8>,
+    eof: bool,
+}
+
+struct WriteSide {
+    bytes: Vec<u8>,
+    decoded_upto: usize,
+    n_msgs: u64,
+    /// bytes of the message being written that write_all has not handed over yet
+    remaining: usize,
+    plan_interrupt: bool,
+    plan_short: Option<u32>,
+    dead: bool,
+}
+
+/// Server-side endpoint of a simulated connection.  Client->server bytes
+/// arrive in the chunks the simulated client sent (a blocking read on an empty
+/// stream is a scheduling point); each read may fail with `Interrupted` or
+/// return fewer bytes than are available; the stream ends (EOF) when the
+/// client closes, possibly in the middle of a message.  Server->client bytes
+/// are decoded as they arrive (the client's view of the wire); each message
+/// may be hit by one `Interrupted` and one short write, and the socket may
+/// break (EPIPE) after a chosen number of messages.  All decisions come from
+/// shuttle::rand, a constant number of draws per read call and per written
+/// message, so the stream of draws does not depend on message lengths.
+struct Endpoint {
+    conn: i64,
+    rd: Mutex<ReadSide>,
+    wr: Mutex<WriteSide>,
+    done_ids: Arc<Mutex<std::collections::HashSet<String>>>,
+    rd_int: u32,
+    rd_short: u32,
+    wr_int: u32,
+    wr_short: u32,
+    die_after: Option<u64>,
+}
+
+impl shim::net::SimEndpoint for Endpoint {
+    fn read(&self, out: &mut [u8]) -> io::Result<usize> {
+        use shuttle::rand::Rng;
+        let (a, b, c) = {
+            let mut rng = shuttle::rand::thread_rng();
+            (rng.gen_range(0u32..1000), rng.gen_range(0u32..1000), rng.gen_range(0u32..1_000_000))
+        };
+        if a < self.rd_int {
+            CODEC_INTERRUPTED.fetch_add(1, Ordering::Relaxed);
+            return Err(io::Error::new(io::ErrorKind::Interrupted, "simulated EINTR"));
+        }
+        if out.is_empty() {
+            return Ok(0);
+        }
+        let mut rd = self.rd.lock().unwrap();
+        if rd.buf.is_empty() {
+            if rd.eof {
+                return Ok(0);
+            }
+            // blocking read: a scheduling point owned by the seeded scheduler
+            match rd.rx.recv() {
+                Ok(chunk) => rd.buf.extend(chunk),
+                Err(_) => {
+                    rd.eof = true;
+                    log_event(serde_json::json!({"k": "CLIENT-EOF", "conn": self.conn}));
+                    return Ok(0);
+                }
+            }
+        }
+        let avail = rd.buf.len().min(out.len());
+        let mut n = avail;
+        if avail > 1 && b < self.rd_short {
+            n = 1 + (c as usize) % (avail - 1);
+            CODEC_SHORT_READS.fetch_add(1, Ordering::Relaxed);
+        }
+        for slot in out.iter_mut().take(n) {
+            *slot = rd.buf.pop_front().unwrap();
+        }
+        Ok(n)
+    }
+
+    fn write(&self, buf: &[u8]) -> io::Result<usize> {
+        use shuttle::rand::Rng;
+        let mut wr = self.wr.lock().unwrap();
+        if wr.dead {
+            return Err(io::Error::new(io::ErrorKind::BrokenPipe, "simulated EPIPE"));
+        }
+        if buf.is_empty() {
+            return Ok(0);
+        }
+        if wr.remaining == 0 {
+            // a new message (write_message hands write_all the whole encoding)
+            let (a, b, c) = {
+                let mut rng = shuttle::rand::thread_rng();
+                (rng.gen_range(0u32..1000), rng.gen_range(0u32..1000), rng.gen_range(0u32..1_000_000))
+            };
+            wr.remaining = buf.len();
+            wr.plan_interrupt = a < self.wr_int;
+            wr.plan_short = if b < self.wr_short { Some(c) } else { None };
+        }
+        if wr.plan_interrupt {
+            wr.plan_interrupt = false;
+            CODEC_INTERRUPTED.fetch_add(1, Ordering::Relaxed);
+            return Err(io::Error::new(io::ErrorKind::Interrupted, "simulated EINTR"));
+        }
+        let mut n = buf.len();
+        if let Some(c) = wr.plan_short.take() {
+            if n > 1 {
+                n = 1 + (c as usize) % (n - 1);
+                CODEC_SHORT_WRITES.fetch_add(1, Ordering::Relaxed);
+            }
+        }
+        wr.remaining = wr.remaining.saturating_sub(n);
+        wr.bytes.extend_from_slice(&buf[..n]);
+        // the client decodes whatever complete messages have arrived
+        loop {
+            let upto = wr.decoded_upto;
+            let mut cur = std::io::Cursor::new(&wr.bytes[upto..]);
+            match read_message(&mut cur) {
+                Ok(Some(mut v)) => {
+                    let used = cur.position() as usize;
+                    wr.decoded_upto += used;
+                    wr.n_msgs += 1;
+                    // `eval-msec` is the one field that reads the real clock
+                    if let Value::Dict(d) = &mut v {
+                        if let Some(x) = d.get_mut(b"eval-msec".as_slice()) {
+                            *x = Value::Int(0);
+                        }
+                    }
+                    let j = bencode_to_json(&v);
+                    if let (Some(id), Some(st)) = (j["id"].as_str(), j["status"].as_array()) {
+                        if st.iter().any(|s| s.as_str() == Some("done")) {
+                            self.done_ids.lock().unwrap().insert(id.to_owned());
+                        }
+                    }
+                    log_event(serde_json::json!({"k": "WIRE", "conn": self.conn, "msg": j}));
+                }
+                _ => break,
+            }
+        }
+        if let Some(lim) = self.die_after {
+            if wr.n_msgs >= lim && wr.remaining == 0 && !wr.dead {
+                // the socket breaks: every later write fails, the writer thread exits
+                wr.dead = true;
+                log_event(serde_json::json!({"k": "WRITER-DIED", "conn": self.conn}));
+            }
+        }
+        Ok(n)
+    }
+
+    fn flush(&self) -> io::Result<()> {
+        Ok(())
+    }
+}
+
+// ---------------------------------------------------------------------
+// the scenario: real serve_connection threads, simulated clients
+// ---------------------------------------------------------------------
+
+fn client(
+    c: i64,
+    ops: Vec<serde_json::Value>,
+    eof_mid: bool,
+    tx: mpsc::Sender<Vec<u8>>,
+    done_ids: Arc<Mutex<std::collections::HashSet<String>>>,
+    global_interrupted: Arc<AtomicBool>,
+) {
+    let n_ops = ops.len();
+    let last_msg = ops.iter().rposition(|o| o["op"] == "msg");
+    for (oi, op) in ops.iter().enumerate() {
+        for _ in 0..op["yields"].as_u64().unwrap_or(0) {
+            sched_point();
+        }
+        match op["op"].as_str().unwrap_or("") {
+            "msg" | "raw" => {
+                let v = json_to_bencode(if op["op"] == "msg" { op["fields"].clone() } else { op["value"].clone() });
+                let mut bytes: Vec<u8> = vec![];
+                write_message(&mut bytes, &v).expect("encode request");
+                let mut cut = false;
+                if eof_mid && Some(oi) == last_msg && bytes.len() > 2 {
+                    // client crash in the middle of its last message
+                    bytes.truncate(bytes.len() / 2);
+                    cut = true;
+                }
+                log_event(serde_json::json!({"k": "CLIENT-SEND", "conn": c, "op_index": oi, "cut": cut}));
+                // delivered in the chunks the client's TCP stack happened to cut
+                let mut cuts: Vec<usize> = op["chunks"]
+                    .as_array()
+                    .map(|a| a.iter().filter_map(|x| x.as_u64()).map(|x| (x as usize * bytes.len()) / 1000).collect())
+                    .unwrap_or_default();
+                cuts.retain(|&x| x > 0 && x < bytes.len());
+                cuts.sort();
+                cuts.dedup();
+                let mut from = 0usize;
+                for cut_at in cuts.into_iter().chain(std::iter::once(bytes.len())) {
+                    if tx.send(bytes[from..cut_at].to_vec()).is_err() {
+                        return;
+                    }
+                    from = cut_at;
+                    if from < bytes.len() {
+                        sched_point();
+                    }
+                }
+                if cut {
+                    break;
+                }
+            }
+            "sigint" => {
+                log_event(serde_json::json!({"k": "SIGINT", "conn": c}));
+                global_interrupted.store(true, Ordering::SeqCst);
+            }
+            "wait" => {
+                // a synchronous client: wait (bounded) for the `done` of an earlier request
+                let id = op["id"].as_str().unwrap_or("").to_owned();
+                let mut polls = op["polls"].as_u64().unwrap_or(200);
+                while polls > 0 && !done_ids.lock().unwrap().contains(&id) {
+                    polls -= 1;
+                    sched_point();
+                }
+                log_event(serde_json::json!({"k": "CLIENT-WAITED", "conn": c, "id": id, "satisfied": polls > 0}));
+            }
+            "disconnect" => break,
+            _ => {}
+        }
+        let _ = n_ops;
+    }
+    log_event(serde_json::json!({"k": "CLIENT-CLOSED", "conn": c}));
+    drop(tx);
+}
+
+fn scenario(sc: &serde_json::Value) {
+    let global_interrupted = Arc::new(AtomicBool::new(false));
+    let temp: Arc<Option<crate::temp_built_in_files::TempBuiltInFiles>> = Arc::new(None);
+    let empty = vec![];
+    let conns = sc["conns"].as_array().unwrap_or(&empty);
+    let mut handles = vec![];
+    for (ci, cs) in conns.iter().enumerate() {
+        let c = ci as i64;
+        let codec = &cs["codec"];
+        let (tx, rx) = mpsc::channel::<Vec<u8>>();
+        let done_ids = Arc::new(Mutex::new(std::collections::HashSet::new()));
+        let ep = Endpoint {
+            conn: c,
+            rd: Mutex::new(ReadSide { rx, buf: Default::default(), eof: false }),
+            wr: Mutex::new(WriteSide {
+                bytes: vec![], decoded_upto: 0, n_msgs: 0, remaining: 0,
+                plan_interrupt: false, plan_short: None, dead: false,
+            }),
+            done_ids: Arc::clone(&done_ids),
+            rd_int: codec["read_interrupted_permille"].as_u64().unwrap_or(0) as u32,
+            rd_short: codec["read_short_permille"].as_u64().unwrap_or(0) as u32,
+            wr_int: codec["write_interrupted_permille"].as_u64().unwrap_or(0) as u32,
+            wr_short: codec["write_short_permille"].as_u64().unwrap_or(0) as u32,
+            die_after: cs["drop_receiver_after"].as_u64(),
+        };
+        let ep: Arc<dyn shim::net::SimEndpoint> = Arc::new(ep);
+        let ep_check = Arc::clone(&ep);
+        let stream = shim::net::TcpStream::Sim(ep);
+        let g = Arc::clone(&global_interrupted);
+        let t = Arc::clone(&temp);
+        // what run_nrepl's accept loop does for an accepted connection
+        let server = thread::Builder::new()
+            .name(format!("nrepl-client-{c}"))
+            .spawn(move || serve_connection(stream, g, t))
+            .expect("spawn serve_connection");
+        let ops = cs["ops"].as_array().cloned().unwrap_or_default();
+        let eof_mid = codec["eof_mid_message"].as_bool().unwrap_or(false);
+        let g2 = Arc::clone(&global_interrupted);
+        let cl = thread::Builder::new()
+            .name(format!("sim-client-{c}"))
+            .spawn(move || client(c, ops, eof_mid, tx, done_ids, g2))
+            .expect("spawn client");
+        handles.push((c, server, cl, ep_check));
+    }
+    for (c, server, cl, _ep) in handles {
+        let _ = cl.join();
+        let r = server.join();
+        log_event(serde_json::json!({"k": "CONN-ENDED", "conn": c, "panicked": r.is_err()}));
+    }
 }
 
 fn run_one(sc: serde_json::Value) -> serde_json::Value {
@@ -322,6 +456,7 @@ fn run_one(sc: serde_json::Value) -> serde_json::Value {
     shim::VIRTUAL_NANOS.store(0, Ordering::SeqCst);
     CODEC_INTERRUPTED.store(0, Ordering::SeqCst);
     CODEC_SHORT_WRITES.store(0, Ordering::SeqCst);
+    CODEC_SHORT_READS.store(0, Ordering::SeqCst);
     shim::TIMER_FIRE_PERMILLE.store(
         sc["timer_permille"].as_u64().unwrap_or(300) as usize,
         Ordering::SeqCst,
@@ -377,6 +512,7 @@ fn run_one(sc: serde_json::Value) -> serde_json::Value {
         "virtual_ms": shim::VIRTUAL_NANOS.load(Ordering::SeqCst) / 1_000_000,
         "codec_interrupted": CODEC_INTERRUPTED.load(Ordering::SeqCst),
         "codec_short_writes": CODEC_SHORT_WRITES.load(Ordering::SeqCst),
+        "codec_short_reads": CODEC_SHORT_READS.load(Ordering::SeqCst),
     })
 }
 
